@@ -18,14 +18,26 @@
                "timeout"                no outcome within the time bound
      caught  "" (not probed) or what `do <case> catch all 'c13-caught' end`
              did: "caught" | "escaped:<Class>" | "not-raised" | "timeout"
-     scaled  "" or the outcome of the same case with 2^70 replaced by 10^4
+     scaled  << >> or, for a case holding a huge int (HugeTags) that did not
+             end: the runs of the same case with stand-ins of increasing
+             magnitude in place of the huge ints, [m, out, size] (size = how
+             large the resulting value is: elements, characters, bits)
+     witness [tags, runs]: another case of the same site (its argument tags
+             and its stand-in runs), or [tags |-> << >>, runs |-> << >>]
 
    An event is accepted iff it is the outcome the property allows: a value
    (AcceptValue) or the language's runtime error with an error value that
    catch intercepts (AcceptError).  AcceptScaled is the one stated relaxation:
-   work proportional to the magnitude of an integer argument (range(2^70))
-   terminates in principle; it is accepted only if the scaled-down case
-   yields a proper outcome.  `host:*`, `timeout`, `syntax`, `badvalue:*` and
+   a result whose SIZE is proportional to the magnitude of an integer argument
+   (range(2^70), pow(2, 2^70)) cannot be produced faster than it can be
+   written down; such a case terminates in principle.  Round 3: that a case
+   with 10^4 in place of the number ends proves nothing about the case itself
+   (rendering 10^5000 that never ends, a year-by-year count up to 2^70 were
+   excused that way).  The excuse now needs evidence of proportionality: the
+   stand-in runs all end properly AND the size of their results grows with
+   the stand-in (Grows), or - for a case that fails after such work was done,
+   choices([], 2^70) - another case of the same site with the huge ints at
+   the same argument positions shows that growth (Witnessed).  `host:*`, `timeout`, `syntax`, `badvalue:*` and
    improper errors are accepted by no action: Reject lists them (@@BAD@@) and
    moves on.  For the forms the outcome class is also compared with the
    prediction of FormsOps (@@DRIFT@@, never BAD).
@@ -34,8 +46,15 @@
    carries g = [kinds, steps, obs].  The heap is re-derived here from the
    recorded steps (HeapOf) and the outcome class compared with PredG (drift
    only, and only where the model commits itself: not for "any").  The
-   verdict is the same grammar of outcomes as for every other event.         *)
-EXTENDS FormsOps, FormsGraphOps, TLC, Json, IOUtils
+   verdict is the same grammar of outcomes as for every other event.
+
+   Round 3: an event with form = "call" is a call of FormsCall.tla on a probe
+   function (c = [n, rest, call, seen, obs]); whether it binds and what the
+   parameters hold is compared with FormsCallOps (drift only).  The function
+   sweep now also calls every function in the shapes that bind parameters by
+   name; such an event names the shape in its site
+   ("base:find_last(_,_,start=_)") and is judged like any other.             *)
+EXTENDS FormsOps, FormsGraphOps, FormsCallOps, TLC, Json, IOUtils
 
 Trace == ndJsonDeserialize(IOEnv.TRACE_FILE)
 VARIABLE l
@@ -49,7 +68,19 @@ ValueOK(e)  == e.out = "value"
 \* "not-raised": the second evaluation did not raise at all (functions of the
 \* Random module) - no evidence either way
 ErrorOK(e)  == e.out = "error:ok" /\ e.caught \in {"", "caught", "not-raised"}
-ScaledOK(e) == e.out \in {"timeout", "host:MemoryError"} /\ Proper(e.scaled)
+HugeTags == {"big", "x_ihuge", "x_i5000"}
+Growth == 5        \* ten times the number, at least five times the result
+HugeAt(tags) == {i \in 1..Len(tags) : tags[i] \in HugeTags}
+AllProper(runs) == Len(runs) >= 2 /\ \A i \in 1..Len(runs) : Proper(runs[i].out)
+Grows(runs) == /\ Len(runs) >= 2
+               /\ \A i \in 1..Len(runs) : runs[i].out = "value" /\ runs[i].size > 0
+               /\ \A i \in 1..(Len(runs) - 1) : /\ runs[i].m < runs[i + 1].m
+                                                 /\ runs[i + 1].size >= Growth * runs[i].size
+Witnessed(e) == Grows(e.witness.runs) /\ HugeAt(e.witness.tags) = HugeAt(e.tags)
+ScaledOK(e) == /\ e.out \in {"timeout", "host:MemoryError"}
+               /\ HugeAt(e.tags) # {}
+               /\ AllProper(e.scaled)
+               /\ (Grows(e.scaled) \/ Witnessed(e))
 Allowed(e)  == ValueOK(e) \/ ErrorOK(e) \/ ScaledOK(e)
 
 \* prediction drift, forms only
@@ -60,7 +91,15 @@ GraphPred(e) == PredG(HeapOf(e.g.kinds, e.g.steps, Len(e.g.steps)), e.g.obs)
 GraphDrift(e) == /\ e.form = "graph" /\ Proper(e.out)
                  /\ GraphPred(e) \in {"value", "error"}
                  /\ GraphPred(e) # Class(e.out)
-Note == /\ (Drift(Ev) => PrintT("@@DRIFT@@" \o ToJson([l |-> l, pred |-> PredictTags(Ev.form, Ev.tags)])))
+\* round 3: an event with form = "call" is a decided call of FormsCall.tla run on the probe
+\* function; c = [n, rest, call, seen, obs].  The model says whether the call binds and, if so,
+\* what every parameter holds.
+CallBinds(e) == CallErr(e.c.n, e.c.rest, e.c.call) = ""
+CallDrift(e) == /\ e.form = "call" /\ Proper(e.out)
+                /\ \/ CallBinds(e) # (e.out = "value")
+                   \/ (e.out = "value" /\ e.c.seen /\ e.c.obs # CallObserved(e.c.n, e.c.rest, e.c.call))
+Note == /\ (CallDrift(Ev) => PrintT("@@DRIFT@@" \o ToJson([l |-> l, pred |-> CallErr(Ev.c.n, Ev.c.rest, Ev.c.call)])))
+        /\ (Drift(Ev) => PrintT("@@DRIFT@@" \o ToJson([l |-> l, pred |-> PredictTags(Ev.form, Ev.tags)])))
         /\ (GraphDrift(Ev) => PrintT("@@DRIFT@@" \o ToJson([l |-> l, pred |-> GraphPred(Ev)])))
         /\ (l = Len(Trace) => PrintT("@@DONE@@" \o ToJson([n |-> l])))
 
